@@ -458,15 +458,22 @@ NodeIndexChanged(DataNode & modifiedNode, char op, uint32 index, const String & 
 
 status_t
 StorageReflectSession ::
-SetDataNode(const String & nodePath, const ConstMessageRef & dataMsgRef, SetDataNodeFlags flags, const String & optInsertBefore)
+SetDataNode(const String & origNodePath, const ConstMessageRef & dataMsgRef, SetDataNodeFlags flags, const String & optInsertBefore)
 {
    TCHECKPOINT;
 
    DataNode * node = _sessionDir();
    if (node == NULL) return B_BAD_OBJECT;
 
-   if ((nodePath.HasChars())&&(nodePath[0] != '/'))
+   if ((origNodePath.HasChars())&&(origNodePath[0] != '/'))
    {
+      // Leave out any empty clauses ("a//b", "a/"), as GetPathDepth(), PathMatcher::MatchesPath() and the rest of our path-parsing
+      // code do.  Otherwise we would create nodes whose name is the empty string:  no path string can refer to such a node afterwards,
+      // and string-based path matching and tree traversal then disagree about which paths match it and the nodes below it.
+      String nodePath;
+      for (const char * c = origNodePath(); *c != '\0'; c++) if ((*c != '/')||((nodePath.HasChars())&&(nodePath.EndsWith('/') == false))) nodePath += *c;
+      if (nodePath.EndsWith('/')) nodePath.TruncateChars(1);
+
       int32 prevSlashPos = -1;
       int32 slashPos = 0;
       DataNodeRef childNodeRef;
